@@ -8,10 +8,12 @@ git -C /repo worktree add -q --detach $wt HEAD || exit 2
 res() { echo "{\"tag\":\"$tag\",\"demo_unmodified\":\"$1\",\"applies\":\"$2\",\"tests_with_change\":\"$3\",\"demo_with_change\":\"$4\"}"; }
 build_demo() { g++ -std=c++17 -O2 -mavx2 $extra -fopenmp -I$wt/src $d/demo.cpp $wt/src/*.cpp -lgmp -o $wt/demo_bin >/dev/null 2>$wt/demo_build.log; }
 a=NA; b=NA; c=NA; e=NA
-if build_demo; then (cd $wt && timeout 300 ./demo_bin >/dev/null 2>&1) && a=pass || a=fail; else a=build-error; fi
+# optional file demo_args next to the demo: its arguments (@WT@ = the scratch worktree)
+args=""; [ -f $d/demo_args ] && args=$(sed "s#@WT@#$wt#g" $d/demo_args)
+if build_demo; then (cd $wt && timeout 300 ./demo_bin $args >/dev/null 2>&1) && a=pass || a=fail; else a=build-error; fi
 if git -C $wt apply $d/patch.diff 2>/dev/null; then b=yes
   if (cd $wt && make testcpu >/dev/null 2>&1 && timeout 900 ./testcpu >$wt/test.log 2>&1); then c=pass; else c=fail; fi
-  if build_demo; then (cd $wt && timeout 300 ./demo_bin >/dev/null 2>&1) && e=pass || e=fail; else e=build-error; fi
+  if build_demo; then (cd $wt && timeout 300 ./demo_bin $args >/dev/null 2>&1) && e=pass || e=fail; else e=build-error; fi
 else b=no; fi
 res $a $b $c $e
 git -C /repo worktree remove --force $wt
